@@ -255,7 +255,10 @@ func runCrashCase(t vk.TB, ops []c17op, victim int) {
 	defer os.RemoveAll(dir)
 	live := filepath.Join(dir, "live")
 	id := quickfix.SessionID{BeginString: "FIX.4.4", SenderCompID: "S", TargetCompID: "T"}
-	factory := storekit.FileFactory(live, true, id)
+	// (syncing is on in every case; how the settings say so varies with the case)
+	syncVariant := len(ops) + victim
+	factory := storekit.FileFactorySynced(live, syncVariant, id)
+	c.Class(fmt.Sprintf("file:sync-configured-variant-%d", syncVariant%4))
 	st, err := factory.Create(id)
 	if err != nil {
 		t.Fatalf("harness: %v", err)
